@@ -334,6 +334,41 @@ func runC16(seed int64, count int) {
 			}
 			emit("C16 dec - %d %s %s", un, hexOrDash(f), jsonRead(c, carrier(rng, f)))
 		case 4: // text codec: arbitrary bytes, optionally through a frame codec
+			if rng.Intn(3) == 0 {
+				// several frames through a frame codec that reuses its read buffer (VariableLengthCodec, PacketCodec);
+				// the strings are compared only after the last frame was delivered
+				tc := format.TextCodec()
+				var fc netty.InboundHandler = frame.VariableLengthCodec(4096)
+				if rng.Intn(2) == 0 {
+					fc = frame.PacketCodec(64)
+				}
+				k := 2 + rng.Intn(3)
+				sent := make([][]byte, k)
+				var got []string
+				for j := range sent {
+					n := 1 + rng.Intn(40)
+					sent[j] = make([]byte, n)
+					for x := range sent[j] {
+						sent[j][x] = byte(rng.Intn(256))
+					}
+				}
+				func() {
+					defer func() { recover() }()
+					for j := range sent {
+						fc.HandleRead(&fakeCtx{onRead: func(m netty.Message) {
+							tc.HandleRead(&fakeCtx{onRead: func(m netty.Message) { got = append(got, m.(string)) }}, m)
+						}}, bytes.NewReader(append([]byte(nil), sent[j]...)))
+					}
+				}()
+				for j := range sent {
+					if j < len(got) {
+						emit("C16 text %s %s", hexOrDash(sent[j]), hexOrDash([]byte(got[j])))
+					} else {
+						emit("C16 text %s - exc", hexOrDash(sent[j]))
+					}
+				}
+				continue
+			}
 			n := []int{0, 1, 2, 7, 63, 64, 65, 500, 1023, 1024, 1025, 4096, 70000}[rng.Intn(13)]
 			s := make([]byte, n)
 			for j := range s {
